@@ -71,6 +71,8 @@ ExpectV(kind, v, rt) ==
     [] kind = "valuerGroup" -> v = Obj(<<[k |-> "a", v |-> Num("1")]>>)
     [] kind = "valuerEmptyGroup" -> v.t = "absent" \/ v = Obj(<<>>)
     [] kind = "jsonnumber" -> v = Num("12")
+    [] kind = "big"       -> v = S("<20000 x>")            \* a record above the pooled-buffer limit is still one line
+    [] kind = "bigbytes"  -> v = S("<20000 A>")
     [] OTHER -> FALSE
 
 ValuesOK(c) ==
